@@ -15,7 +15,7 @@
    queued batch, or the futs of a running batch. *)
 From Coq Require Import List Arith NArith Bool.
 Import ListNotations.
-Require Import Aiuti.Case_Batcher Aiuti.Case_Batcher_Sound Aiuti.Case_Batcher_Basic Aiuti.BatcherSim Aiuti.Case_Batcher_C11 Aiuti.Batcher Aiuti.BatcherLimits Aiuti.BatcherTime Aiuti.BatcherInv Aiuti.BatcherProps.
+Require Import Aiuti.Case_Batcher Aiuti.Case_Batcher_Sound Aiuti.Case_Batcher_Basic Aiuti.BatcherSim Aiuti.Case_Batcher_C11 Aiuti.Case_Batcher_Full Aiuti.Batcher Aiuti.BatcherLimits Aiuti.BatcherTime Aiuti.BatcherInv Aiuti.BatcherProps.
 
 (* No batch ever carries a key twice. *)
 Theorem no_dup_key_in_batch :
@@ -154,13 +154,29 @@ Print Assumptions monitor_basic_sound.
    implementation trace is a real difference from the model, whose traces satisfy the
    theorems above.  The proof (Case_Batcher_C11.v) is a simulation between the model state and
    the monitor's specification state; its heart is [spec_ret]: the monitor's window
-   specification decides exactly like the retention cache.  PARTIAL only in that Chain events
-   (tasks calling again in the continuation of their answer) are excluded. *)
+   specification decides exactly like the retention cache.  Chain events (tasks calling again
+   in the continuation of their answer) are excluded here; [monitor_complete] below has them. *)
 Theorem monitor_complete_nochain :
   forall c evs w, cfg_ok c -> Forall ev_ok evs -> forallb (fun e => negb (is_chain e)) evs = true ->
   ok_C11 (BCase c evs (map canon (fst (run c evs))) w) = true.
 Proof. exact ok_C11_complete. Qed.
 Print Assumptions monitor_complete_nochain.
+
+(* Completeness of the full monitor ok_C11 on ALL event lists, Chain events included: for
+   every configuration and every event list — in addition to the above, tasks that make
+   several calls one after the other, each in the continuation of the previous answer
+   (answered at once inside the window, or resumed by a batch and calling again in the same
+   loop iteration) — the monitor accepts the canonical trace of the model.  The proof
+   (Case_Batcher_Full.v) sees every macro step in two phases: the event resolves futures and
+   wakes their callers, then the calls of the step (the event's own, or those of the resumed
+   tasks) are registered one by one against the monitor's registration of chained calls; the
+   order in which resumed tasks call again (the model: by future id; the monitor: by produced
+   key in futs order) agrees because the futs of a batch carry ascending future ids. *)
+Theorem monitor_complete :
+  forall c evs w, cfg_ok c -> Forall ev_ok evs ->
+  ok_C11 (BCase c evs (map canon (fst (run c evs))) w) = true.
+Proof. exact ok_C11_complete_all. Qed.
+Print Assumptions monitor_complete.
 
 (* Soundness of the full monitor, PARTIAL.  ok_C11 (Case_Batcher.v) judges the observed trace
    independently of the model.  Proved: acceptance implies that no observed batch
